@@ -37,6 +37,10 @@ type thread struct {
 	status string
 	rets   []int
 	recs   []rec
+	// the Add call in flight: its delta, and whether its counter update has been performed
+	curDelta int
+	applied  bool
+	reserved bool
 }
 
 type gImpl struct {
@@ -57,6 +61,7 @@ type gImpl struct {
 	mon     string
 	variant string
 	roChans []<-chan struct{}
+	reservedSum int
 }
 
 func (g *gImpl) Reset() {}
@@ -177,6 +182,7 @@ func (g *gImpl) startCase(ws []string) string {
 	g.chans = map[int]chan struct{}{}
 	g.nextID = 0
 	g.count, g.wchan, g.lock, g.zc, g.lb, g.lzc, g.sumRet, g.inAdd, g.mon = 0, 0, "-", 1, 0, 1, 0, 0, "ok"
+	g.reservedSum = 0
 	g.threads = nil
 	g.s = sched.New()
 	sentinelSeen := false
@@ -209,6 +215,7 @@ func (g *gImpl) runThread(t *thread) {
 		switch c.kind {
 		case "a":
 			t.status = "add"
+			t.curDelta, t.applied, t.reserved = c.d, false, false
 			g.inAdd++
 			if c.d < 0 {
 				g.lb += c.d
@@ -331,11 +338,39 @@ func (g *gImpl) state() string {
 	return b.String()
 }
 
+// gated: stepping thread tid now could drive the count negative. A decrement issued by one
+// goroutine may rely on an increment of another one (cross-goroutine balance); the schedule
+// generators only let such a decrement proceed once the counter (minus what other admitted
+// decrements have reserved) covers it, so that the callers' obligation "never negative" holds.
+func (g *gImpl) gated(tid int) bool {
+	if tid < 0 || tid >= len(g.threads) {
+		return false
+	}
+	t := g.threads[tid]
+	if t.status != "add" || t.curDelta >= 0 || t.applied || t.reserved {
+		return false
+	}
+	return g.count-int64(g.reservedSum)+int64(t.curDelta) < 0
+}
+
 func (g *gImpl) step(tid int) string {
 	if g.s == nil || tid < 0 || tid >= len(g.threads) {
 		return "bad-op"
 	}
+	if t := g.threads[tid]; t.status == "add" && t.curDelta < 0 && !t.applied && !t.reserved && !g.s.Done(tid) {
+		t.reserved = true
+		g.reservedSum += -t.curDelta
+	}
 	op := g.s.Step(tid)
+	if op != nil && op.Kind == "ctr-update" {
+		if t := g.threads[tid]; t.status == "add" || true {
+			if t.reserved && !t.applied {
+				g.reservedSum -= -t.curDelta
+				t.reserved = false
+			}
+			t.applied = true
+		}
+	}
 	label := "none"
 	if op != nil {
 		label = op.Kind
